@@ -94,9 +94,9 @@ Definition ops_glue_model : list (string * opfn) := [
   ("glue.one_like", fun _ a => Val [g_from_limb (g_len 0 a) 1]);
   (* Zero::zero_like = clone, then set_zero (Uint / Int / Limb / Wrapping<Uint>: *self = ZERO; BoxedUint: fill) *)
   ("glue.zero_like", fun _ a => Val [zeros (g_len 0 a)]);
-  (* Wrapping<BoxedUint> has no set_zero of its own: the default `*self = Zero::zero()` = Wrapping(BoxedUint::zero()),
-     one limb whatever the precision of the operand *)
-  ("glue.zero_like_wrapping_boxed", fun _ a => Val [[0]]);
+  (* Wrapping<T>::set_zero forwards to T::set_zero (BoxedUint: fill the limbs with zero), so the precision is kept
+     (repaired in /repo 526c7f5; before, the trait default `*self = Zero::zero()` gave a one-limb zero: finding F32) *)
+  ("glue.zero_like_wrapping_boxed", fun _ a => Val [zeros (g_len 0 a)]);
   ("glue.recip_default", fun _ a => Val (g_recip_fields (g_recip 0)));
   ("glue.recip_select", fun _ a =>
      Val (g_recip_fields (g_recip_select (g_recip (sarg 0 a)) (g_recip (sarg 1 a)) (carg 2 a))));
